@@ -47,7 +47,7 @@ func NewWorld(root string) *World {
 	fset := token.NewFileSet()
 	w := &World{Root: root, Fset: fset, Pkgs: map[string]*Pkg{}, Files: map[string][]byte{}}
 	w.std = importer.ForCompiler(fset, "source", nil)
-	w.Cs = &Contracts{Funcs: map[string]*FuncContract{}, TypeInvs: map[string]*TypeInvariant{}, Ghosts: map[string]string{}, Lemmas: map[string]*FuncContract{}}
+	w.Cs = &Contracts{Funcs: map[string]*FuncContract{}, TypeInvs: map[string]*TypeInvariant{}, Ghosts: map[string]string{}, Lemmas: map[string]*FuncContract{}, Preds: map[string]*Pred{}, GhostFields: map[string]map[string]string{}}
 	return w
 }
 
